@@ -18,8 +18,11 @@ pub fn use_stable_counter() -> u32 {
     let global_scope = use_global_scope();
     let counter = global_scope.run_in(|| use_context_or_else(CounterValue::default));
 
-    let next = counter.next.get();
-    counter.next.set(next + 1);
+    // The counter is bookkeeping, not state of the view: it is read without tracking and written
+    // silently. Otherwise a dynamic view that takes a counter value would depend on the counter
+    // and be built again by every later use of it.
+    let next = counter.next.get_untracked();
+    counter.next.set_silent(next + 1);
     next
 }
 
